@@ -451,6 +451,35 @@ func (f *Footer) Length() uint64 {
 
 // --------------------------------------------------------
 
+// mmapRefAny returns the mmapRef of a persisted segment of this footer
+// or, when the footer has no segments of its own, of one of its child
+// footers.  All of them belong to the same file.  It returns nil when
+// nothing is persisted in the whole footer tree.
+func (f *Footer) mmapRefAny() *mmapRef {
+	if f == nil {
+		return nil
+	}
+
+	f.m.Lock()
+	for i := range f.SegmentLocs {
+		if f.SegmentLocs[i].mref != nil {
+			mref := f.SegmentLocs[i].mref
+			f.m.Unlock()
+			return mref
+		}
+	}
+	f.m.Unlock()
+
+	for _, childFooter := range f.ChildFooters {
+		mref := childFooter.mmapRefAny()
+		if mref != nil {
+			return mref
+		}
+	}
+
+	return nil
+}
+
 // segmentLocs returns the current SegmentLocs and segmentStack for
 // a footer, while also incrementing the ref-count on the footer.  The
 // caller must DecRef() the footer when done.
